@@ -27,6 +27,10 @@ pub(crate) enum Sort {
     List,
     Opt(Box<Sort>),
     Struct(String),
+    /// a Rust tuple (Lean product, right-nested)
+    Tuple(Vec<Sort>),
+    /// `std::cmp::Ordering` (core Lean's `Ordering`)
+    Ordering,
 }
 
 #[derive(Clone, Debug)]
@@ -203,7 +207,7 @@ impl Translator {
                 let Some(segs) = path_segs(&c.func) else { return Sort::Other };
                 let strs: Vec<&str> = segs.iter().map(|s| s.as_str()).collect();
                 match strs.as_slice() {
-                    ["Vec", "new"] | ["iter", "once"] | ["std", "iter", "once"] => Sort::List,
+                    ["Vec", "new"] | ["Vec", "with_capacity"] | ["iter", "once"] | ["std", "iter", "once"] => Sort::List,
                     [a, b] => self.loop_fns.get(&(a.to_string(), b.to_string())).map(|f| f.ret.clone()).unwrap_or(Sort::Other),
                     _ => Sort::Other,
                 }
@@ -212,17 +216,26 @@ impl Translator {
                 let m = mc.method.to_string();
                 match self.sort_of(&mc.receiver, cx) {
                     Sort::List => match m.as_str() {
-                        "iter" | "into_iter" | "cloned" | "copied" | "rev" | "map" | "chain" | "skip" | "zip" | "collect" | "clone" => Sort::List,
+                        "iter" | "into_iter" | "cloned" | "copied" | "rev" | "map" | "chain" | "skip" | "zip" | "collect" | "clone" | "enumerate" => Sort::List,
                         "len" => Sort::Nat,
                         "position" => Sort::Opt(Box::new(Sort::Nat)),
-                        "next" | "first" | "last" | "get_mut" | "get" => Sort::Opt(Box::new(Sort::Other)),
+                        "next" | "first" | "last" | "get_mut" | "get" | "find_map" => Sort::Opt(Box::new(Sort::Other)),
+                        "split_first" | "split_last" => Sort::Opt(Box::new(Sort::Tuple(vec![Sort::Other, Sort::List]))),
+                        "split_at_checked" => Sort::Opt(Box::new(Sort::Tuple(vec![Sort::List, Sort::List]))),
                         _ => Sort::Other,
                     },
                     Sort::Opt(inner) => match m.as_str() {
-                        "unwrap" | "expect" => *inner,
+                        "unwrap" | "expect" | "unwrap_or" => *inner,
                         "map_or" => mc.args.first().map(|a| self.sort_of(a, cx)).unwrap_or(Sort::Other),
+                        "map" => Sort::Opt(Box::new(Sort::Other)),
                         _ => Sort::Other,
                     },
+                    Sort::Nat => match m.as_str() {
+                        "saturating_sub" | "min" => Sort::Nat,
+                        _ => Sort::Other,
+                    },
+                    // `a.partial_cmp(&b)` on floats (dispatched by name, like `max` / `abs`)
+                    Sort::Other if m == "partial_cmp" => Sort::Opt(Box::new(Sort::Ordering)),
                     _ => Sort::Other,
                 }
             }
@@ -280,7 +293,7 @@ impl Translator {
     }
 
     /// translate `f` with its own hoisting frame; returns its value and the lines it hoisted
-    fn framed<T>(&self, cx: &mut BodyCx, f: impl FnOnce(&Self, &mut BodyCx) -> R<T>) -> R<(T, Vec<String>)> {
+    pub(super) fn framed<T>(&self, cx: &mut BodyCx, f: impl FnOnce(&Self, &mut BodyCx) -> R<T>) -> R<(T, Vec<String>)> {
         let sp = std::mem::take(&mut cx.pending);
         let sm = std::mem::take(&mut cx.mutated);
         let sr = std::mem::take(&mut cx.reads);
@@ -349,7 +362,7 @@ impl Translator {
         }
     }
 
-    fn block_opt(&self, b: &Block, cx: &mut BodyCx) -> R<String> {
+    pub(super) fn block_opt(&self, b: &Block, cx: &mut BodyCx) -> R<String> {
         cx.scopes.push(BTreeMap::new());
         let r = self.framed(cx, |s, cx| s.block_lines(&b.stmts, cx, false, true));
         cx.scopes.pop();
@@ -447,9 +460,13 @@ impl Translator {
             Pat::Type(pt) => self.bind_pattern(&pt.pat, cx, sort),
             Pat::Wild(_) => Ok("_".into()),
             Pat::Tuple(t) => {
+                let elem_sorts = match &sort {
+                    Sort::Tuple(v) if v.len() == t.elems.len() => v.clone(),
+                    _ => vec![Sort::Other; t.elems.len()],
+                };
                 let mut parts = vec![];
-                for el in &t.elems {
-                    parts.push(self.bind_pattern(el, cx, Sort::Other)?);
+                for (el, es) in t.elems.iter().zip(elem_sorts) {
+                    parts.push(self.bind_pattern(el, cx, es)?);
                 }
                 Ok(format!("({})", parts.join(", ")))
             }
@@ -695,9 +712,47 @@ impl Translator {
                             }
                         }
                     }
+                    "enumerate" | "split_first" | "split_last" => {
+                        arity(0)?;
+                        let r = self.expr(&mc.receiver, cx)?;
+                        let f = match m.as_str() {
+                            "enumerate" => "enumerate",
+                            "split_first" => "splitFirst",
+                            _ => "splitLast",
+                        };
+                        Ok(Some(format!("(Iter.{f} {r})")))
+                    }
+                    "split_at_checked" => {
+                        arity(1)?;
+                        let r = self.expr(&mc.receiver, cx)?;
+                        if self.sort_of(&mc.args[0], cx) != Sort::Nat {
+                            return Err("split_at_checked: argument of unknown kind".into());
+                        }
+                        let a = self.expr(&mc.args[0], cx)?;
+                        Ok(Some(format!("(Iter.splitAtChecked {r} {a})")))
+                    }
+                    "find_map" => {
+                        arity(1)?;
+                        let r = self.expr(&mc.receiver, cx)?;
+                        let f = self.pure_closure(&mc.args[0], cx, &[Sort::Other], "find_map")?;
+                        Ok(Some(format!("(Iter.findMap {r} {f})")))
+                    }
                     _ => Ok(None),
                 }
             }
+            Sort::Nat => match m.as_str() {
+                "saturating_sub" | "min" => {
+                    arity(1)?;
+                    let r = self.expr(&mc.receiver, cx)?;
+                    if self.sort_of(&mc.args[0], cx) != Sort::Nat {
+                        return Err(format!("{m}: argument of unknown kind"));
+                    }
+                    let a = self.expr(&mc.args[0], cx)?;
+                    let f = if m == "min" { "umin" } else { "saturatingSub" };
+                    Ok(Some(format!("(Iter.{f} {r} {a})")))
+                }
+                _ => Ok(None),
+            },
             Sort::Opt(inner) => match m.as_str() {
                 "unwrap" | "expect" => {
                     let r = self.expr(&mc.receiver, cx)?;
@@ -709,6 +764,18 @@ impl Translator {
                     let d = self.expr(&mc.args[0], cx)?;
                     let f = self.pure_closure(&mc.args[1], cx, &[*inner], "map_or")?;
                     Ok(Some(format!("(Iter.mapOr {r} {d} {f})")))
+                }
+                "unwrap_or" => {
+                    arity(1)?;
+                    let r = self.expr(&mc.receiver, cx)?;
+                    let d = self.expr(&mc.args[0], cx)?;
+                    Ok(Some(format!("(Iter.unwrapOr {r} {d})")))
+                }
+                "map" => {
+                    arity(1)?;
+                    let r = self.expr(&mc.receiver, cx)?;
+                    let f = self.pure_closure(&mc.args[0], cx, &[*inner], "map")?;
+                    Ok(Some(format!("(Iter.optMap {r} {f})")))
                 }
                 _ => Err(format!("unsupported method `{m}` on an Option")),
             },
@@ -772,6 +839,13 @@ impl Translator {
         let strs: Vec<&str> = segs.iter().map(|s| s.as_str()).collect();
         match strs.as_slice() {
             ["Vec", "new"] if c.args.is_empty() => return Ok(Some("[]".into())),
+            ["Vec", "with_capacity"] if c.args.len() == 1 => {
+                if self.sort_of(&c.args[0], cx) != Sort::Nat {
+                    return Err("Vec::with_capacity: argument of unknown kind".into());
+                }
+                let a = self.expr(&c.args[0], cx)?;
+                return Ok(Some(format!("(Iter.withCapacity {a})")));
+            }
             ["iter", "once"] | ["std", "iter", "once"] if c.args.len() == 1 => {
                 let a = self.expr(&c.args[0], cx)?;
                 return Ok(Some(format!("(Iter.once {a})")));
@@ -907,6 +981,10 @@ impl Translator {
                 self.stmt_match(m, cx, lines)?;
                 Ok(true)
             }
+            Expr::Loop(l) => {
+                self.ve_loop(l, cx, lines)?;
+                Ok(true)
+            }
             Expr::If(i) if i.else_branch.is_none() => {
                 let ret = match i.then_branch.stmts.as_slice() {
                     [Stmt::Expr(Expr::Return(r), _)] => r,
@@ -918,7 +996,27 @@ impl Translator {
                 let Some(val) = &ret.expr else { return Err("return without value".into()) };
                 let c = self.expr(&i.cond, cx)?;
                 self.flush(cx, lines);
-                let r = if cx.opt_mode { self.expr_opt(val, cx)? } else { self.expr_local(val, cx)? };
+                let r = if cx.ret_extra.is_empty() {
+                    if cx.opt_mode {
+                        self.expr_opt(val, cx)?
+                    } else {
+                        self.expr_local(val, cx)?
+                    }
+                } else {
+                    // the `&mut` parameters are returned next to the result, with their current values
+                    let (v, pre) = self.framed(cx, |s, cx| s.expr(val, cx))?;
+                    let mut parts = vec![v];
+                    parts.extend(cx.ret_extra.iter().cloned());
+                    let mut t = format!("({})", parts.join(", "));
+                    if cx.opt_mode {
+                        t = format!("some ({t})");
+                    }
+                    if pre.is_empty() {
+                        t
+                    } else {
+                        format!("{} {t}", pre.join(" "))
+                    }
+                };
                 lines.push(format!("if {c} then ({r}) else"));
                 Ok(true)
             }
